@@ -67,9 +67,22 @@ func genVariantDef(ab []byte, mask int, style string) ([]byte, error) {
 	if !ok {
 		return nil, fmt.Errorf("no default section")
 	}
+	if style == "empty-onx" {
+		// a base WITH steps in all four sections; the variant defines its step sections as empty lists
+		if isEmpty(def["on-open"]) {
+			def["on-open"] = []interface{}{map[string]interface{}{"operation": "channel.write", "input": "zzz"}, map[string]interface{}{"operation": "channel.return"}}
+		}
+		if isEmpty(def["on-close"]) {
+			def["on-close"] = []interface{}{map[string]interface{}{"operation": "channel.write", "input": "qqq"}, map[string]interface{}{"operation": "channel.return"}}
+		}
+	}
 	v := map[string]interface{}{}
 	for i, s := range sections {
 		if mask&(1<<i) == 0 {
+			continue
+		}
+		if style == "empty-onx" && strings.Contains(s, "on-") {
+			v[s] = []interface{}{}
 			continue
 		}
 		switch s {
@@ -331,7 +344,7 @@ func runGenVariants(name string) mon.Result {
 		return *v
 	}
 	obs := map[string]int64{}
-	for _, style := range []string{"", "renamed"} {
+	for _, style := range []string{"", "renamed", "empty-onx"} {
 		for mask := 0; mask < 1<<len(sections); mask++ {
 			gb, err := genVariantDef(ab, mask, style)
 			if err != nil {
@@ -346,6 +359,13 @@ func runGenVariants(name string) mon.Result {
 				return *v
 			}
 			obs["generated_variants_merged"]++
+			if style == "empty-onx" {
+				for _, b := range []int{2, 3, 6, 7} {
+					if mask&(1<<b) != 0 {
+						obs["generated_variant_sections_defined_empty"]++
+					}
+				}
+			}
 			if style == "renamed" && mask&(1<<4) != 0 && mask&(1<<5) != 0 {
 				obs["generated_variants_with_renamed_levels_and_default"]++
 			}
@@ -518,6 +538,14 @@ func gen(tier string, seed int64) []mon.Case {
 			}
 			dyn(n+"/generated-renamed", Dyn{Source: "genvariant", Renamed: true, Platform: n, Start: rl[(k+1)%len(rl)], From: renamedPrefix + canon[n].Default,
 				Targets: rotate(rl, k+1), CloseAt: rl[k%len(rl)]})
+			// generated variant that defines the four step sections as EMPTY lists over a base with steps
+			dyn(n+"/generated-empty-onx", Dyn{Source: "genvariant", GenStyle: "empty-onx", GenMask: 0xCC, Platform: n, Start: lv[(k+1)%len(lv)], From: canon[n].Default,
+				Targets: rotate(lv, k), CloseAt: lv[(k+1)%len(lv)]})
+			// trailing blanks after every prompt, where the level's own pattern accepts them
+			for bi, bm := range []string{"b0", "b1", "b2"} {
+				a := lv[(bi+k)%len(lv)]
+				dyn(n+"/blanks="+bm, Dyn{Source: "asset", Platform: n, Blank: bm, Start: a, From: a, Targets: rotate(lv, bi+k), CloseAt: lv[(bi+k+1)%len(lv)]})
+			}
 			// a user-chosen default level on top of the definition's
 			for i := range lv {
 				x := lv[(i+k)%len(lv)]
@@ -672,7 +700,8 @@ func init() {
 			"working-directory case (own worker process): cwd holding a directory / a foreign YAML file / a foreign <name>.yaml per advertised name must not change what any advertised name (and the shipped variant) loads; a name that is not embedded must still load from the file system",
 			"customised-levels sessions: the definition's own level objects get an alternative appended to their patterns in place (the canonical prompt with the hostname replaced by one of 4 hostile-but-legal names), refreshed by UpdatePrivileges() on the same driver or handed to a second driver through options.WithPrivilegeLevels after a first driver used the same map; judged by the ordinary oracle (joined pattern and per-level patterns consistent, on-open/on-close seen, all pairs reached)",
 			"two-drivers sessions: every option list is append(p.AsOptions(), user options) on ONE *Platform and all lists exist before any driver is built (1 or 3 user options per list; getter calls interleaved); each driver must carry its own transport / default level / failure strings / port and drive its own device; that AsOptions reflects later edits of the Platform's fields is not judged (not stated by the property)",
-			"generated variants define only non-empty sections; a section that is present but empty is outside the checked merge semantics",
+			"generated variants define the on-open/on-close/network-on-open/network-on-close sections either with steps or as an explicitly empty list (= defined: the base's steps must go); for the other sections only non-empty values are generated, a present-but-empty driver type / failure list / level map is outside the checked merge semantics",
+			"trailing blanks: per platform the device also prints each prompt with 0, 1 and 2 trailing blanks wherever the level's own pattern accepts that spelling; the joined pattern must find the prompt in it and the session must run as usual",
 			"a timeout counts only if every generated byte had been delivered and the load canary is healthy",
 		},
 		Exhaustive:  func(string) bool { return true },
